@@ -15,6 +15,11 @@ def run(chk):
     tc.model_check(chk, chk.tier == "quick")
     tc.standard_plan(chk, "C03", "nt_C03")
     chk.assumptions.append("ids are compared literally for the simple trackers and modulo renaming for the batch trackers")
+    # VisualSORT with the own-area options on (another code path before the epoch is advanced), lifecycle calls included
+    r, c = tc.generate_visual(chk, "v-own-lifecycle", depth=6, Sim=8, OwnUse=50, OwnCollect=50, LifecycleOps=True, MaxIdle=1,
+                              simulate={"num": 12 if chk.tier == "quick" else 150, "depth": 7})
+    for kind in ("visual", "batchvisual"):
+        tc.replay_visual(chk, "v-own-lifecycle", r, c, kind, 2, "C03", "nt_C03")
     # R2: random free-world histories (moving, crossing, disappearing objects; lifecycle calls interleaved)
     from checks import r2_common as r2
     traces = []
